@@ -10,6 +10,51 @@ pub trait Payload: Clone + PartialEq + fmt::Debug + 'static {
     fn set_val(&mut self, v: u64);
 }
 
+thread_local! {
+    static DISPLAY_PANICS: std::cell::Cell<bool> = const { std::cell::Cell::new(false) };
+}
+
+/// While set (per thread), rendering a `Plain` / `Txt` payload panics: a reader that dies inside a dump.
+pub fn set_display_panics(on: bool) {
+    DISPLAY_PANICS.with(|d| d.set(on));
+}
+
+fn maybe_panic_in_display() {
+    if DISPLAY_PANICS.with(|d| d.get()) {
+        panic!("payload Display asked to panic");
+    }
+}
+
+/// payloads of different sizes (the size of `Node<T>` is an input of `get_node_id`'s index arithmetic)
+#[derive(Clone, PartialEq, Eq, Debug)]
+pub struct Wide<const N: usize>(pub [u64; N]);
+
+impl<const N: usize> Payload for Wide<N> {
+    fn make(tid: u64, val: u64) -> Self {
+        let mut a = [0u64; N];
+        a[0] = tid;
+        if N > 1 {
+            a[1] = val;
+        }
+        Wide(a)
+    }
+    fn tid(&self) -> u64 {
+        self.0[0]
+    }
+    fn val(&self) -> u64 {
+        if N > 1 {
+            self.0[1]
+        } else {
+            self.0[0].wrapping_mul(1_000_003)
+        }
+    }
+    fn set_val(&mut self, v: u64) {
+        if N > 1 {
+            self.0[1] = v
+        }
+    }
+}
+
 // ------------------------------------------------------------------- Plain
 
 #[derive(Clone, PartialEq, Eq, Debug)]
@@ -36,6 +81,7 @@ impl Payload for Plain {
 
 impl fmt::Display for Plain {
     fn fmt(&self, f: &mut fmt::Formatter<'_>) -> fmt::Result {
+        maybe_panic_in_display();
         write!(f, "n{}", self.tid)
     }
 }
@@ -292,6 +338,7 @@ fn write_chunked(f: &mut fmt::Formatter<'_>, text: &str, seed: u64) -> fmt::Resu
 
 impl fmt::Display for Txt {
     fn fmt(&self, f: &mut fmt::Formatter<'_>) -> fmt::Result {
+        maybe_panic_in_display();
         let mode = if f.alternate() { 1 } else { 0 };
         let t = txt_text(self.0.tid, self.0.val, mode);
         write_chunked(f, &t, self.0.tid.wrapping_mul(31) ^ self.0.val ^ mode as u64)
@@ -300,6 +347,7 @@ impl fmt::Display for Txt {
 
 impl fmt::Debug for Txt {
     fn fmt(&self, f: &mut fmt::Formatter<'_>) -> fmt::Result {
+        maybe_panic_in_display();
         let mode = if f.alternate() { 3 } else { 2 };
         let t = txt_text(self.0.tid, self.0.val, mode);
         write_chunked(f, &t, self.0.tid.wrapping_mul(31) ^ self.0.val ^ mode as u64)
